@@ -43,7 +43,7 @@ PAST = [['dt', 730120, 0], ['dt', 730119, 82800], ['dt', 719163, 0]]          # 
 FUTURE = [['dt', 1095363, 0], ['dt', 1095163, 43200]]                          # 3000-01-01, 2999-06-15 12:00
 _PAST_LIMIT = 730120 + 366
 
-_val = st.one_of(st.none(), st.integers(0, 5), st.sampled_from([0.5, 2.0]), st.sampled_from(['u', 'v', '']))
+_val = st.one_of(st.none(), st.integers(0, 5), st.sampled_from([0.5, 2.0]), st.sampled_from(['u', 'uv', '']))
 _old = st.one_of(st.sampled_from(['old', 'old2']), st.none(), st.integers(0, 5))
 
 
